@@ -55,6 +55,7 @@ let xl (f : string) (a : string list) : string =
   | "isValidLowEntropyRotation", [r] -> bool_s (xl_protocol_isValidLowEntropyRotation (z r))
   | "lowBits", [n] -> optp (xl_protocol_lowBits (z n))
   | "rotateLowEntropyMask", [m; r; i] -> zs (xl_protocol_rotateLowEntropyMask (z m) (z r) (z i))
+  | "lowEntropyChunkMask", [m; r; i] -> let (v, e) = xl_protocol_lowEntropyChunkMask (z m) (z r) (z i) in zs v ^ " " ^ bool_s e
   | "validateLowEntropyCodecParams", [m; hm; r] ->
     let ((c, w), e) = xl_protocol_validateLowEntropyCodecParams (z m) (z hm) (z r) in zs c ^ " " ^ zs w ^ " " ^ bool_s e
   | "Mid_uint32", [a; b; c] -> zs (xl_mathext_Mid_uint32 (z a) (z b) (z c))
@@ -108,6 +109,9 @@ let model (f : string) (a : string list) : string =
   | "rotateLowEntropyMask", [m; r; i] ->
     if below m p64 && below i p63 && zlt (xb_zopp (xb_zadd p32 (z "1"))) (xb_zadd (z r) (z r)) && zlt (xb_zadd (z r) (z r)) p32
     then ns (m_rotate_mask (nz m) (z r) (nz i)) else "-"
+  | "lowEntropyChunkMask", [m; r; i] ->
+    if below m p64 && zlt (z i) p63 && zlt (xb_zopp p63) (z i) && zlt (xb_zopp (xb_zadd p32 (z "1"))) (xb_zadd (z r) (z r)) && zlt (xb_zadd (z r) (z r)) p32
+    then (match m_chunk_mask (nz m) (z r) (z i) with Some v -> ns v ^ " 0" | None -> "0 1") else "-"
   | "validateLowEntropyCodecParams", [m; hm; r] ->
     if below hm p32 then (match m_validate_params (z m) (nz hm) (z r) with Some (c, w) -> zs c ^ " " ^ zs w ^ " 0" | None -> "0 0 1") else "-"
   | "Mid_uint32", [a; b; c] -> zs (m_mid3 (z a) (z b) (z c))
